@@ -139,6 +139,19 @@ def run_attack(cfg, out):
         rogue = None
         iter0 = w.server_iterations
         recv_size = P.RECV_SIZE
+        # ---- a self-consistent short hello (valid CRC, valid key and version, padding cut off) of EVERY length, each from its own
+        #      address: whatever the server makes of it, it never sends back more than it got
+        def short_hello(cut):
+            h = L.parse_header(hello)
+            body = hello[20:cut - 4]
+            hdr = struct.pack(">4sLHHBHBL", h[0], h[1], h[2], h[3], h[4], len(body), h[6], h[7])
+            return hdr + body + A.crc(hdr + body)
+        for k, cut in enumerate(range(25 + cfg["shard"] % 2, len(hello), 2)):
+            w.offer_server(("10.12.%d.%d" % (k >> 8, k & 255), 11), short_hello(cut), "hello-undersized")
+            c.inc("inj_hello_every_length")
+            if k % 8 == 7:
+                w.step()
+        w.step(3)
         for t in range(cfg["ticks"]):
             # the honest client keeps asking
             if t % 5 == 0 and honest.udp.conn is not None and getattr(honest.udp.conn.status, "value", 0) == 2:
@@ -172,7 +185,7 @@ def run_attack(cfg, out):
                         c.inc("inj_hello_repeat")
                 elif x < 0.7:
                     # undersized / truncated hellos: must not be answered at all
-                    cut = r.choice([20, 24, 60, 200, len(hello) // 2, len(hello) - 5, len(hello) - 1])
+                    cut = r.choice([20, 24, 60, 200, len(hello) // 2, len(hello) - 5, len(hello) - 1, r.randrange(24, len(hello)), r.randrange(24, len(hello))])
                     d = hello[:cut]
                     if r.random() < 0.5 and cut > 24:
                         h = L.parse_header(d)
@@ -365,7 +378,7 @@ def run_shard(cfg):
 def finish(tier, seed, results):
     m = merge(results)
     inconclusive = []
-    need(m["counters"], ["echo_requests", "echoes_received", "inj_random_bytes", "inj_hello_flood", "inj_hello_repeat", "inj_hello_undersized",
+    need(m["counters"], ["echo_requests", "echoes_received", "inj_random_bytes", "inj_hello_flood", "inj_hello_repeat", "inj_hello_undersized", "inj_hello_every_length",
                          "inj_from_blocklisted", "inj_spoofed_from_honest", "inj_authenticated_flood", "bytes_to_unauthenticated_addresses",
                          "offered_blocklisted", "appended", "server_iterations", "freerun_appended", "freerun_consumed"], inconclusive)
     cov = {
